@@ -33,9 +33,11 @@ type c06Case struct {
 	Frames  []c06Frame `json:"frames"`
 	Choices []int      `json:"choices,omitempty"` // E3 choice vector of the scripted reader
 	Uniform int        `json:"uniform_chunk,omitempty"`
-	Cut     int        `json:"cut_at,omitempty"`   // one forced short read ending exactly at this stream offset
-	Std     string     `json:"std_type,omitempty"` // a standard-library reader / writer type
-	Zoo     string     `json:"zoo_message,omitempty"` // an entry of the message zoo (c06_zoo.go), read with uniform_chunk
+	Cut     int        `json:"cut_at,omitempty"`             // one forced short read ending exactly at this stream offset
+	Std     string     `json:"std_type,omitempty"`           // a standard-library reader / writer type
+	Empty   int        `json:"empty_every,omitempty"`        // > 0: every Empty-th call of the reader returns (0, nil) (a polling source)
+	Sizer   string     `json:"sizing_call_before,omitempty"` // histories on one message object (c06MutJudge): zoo_message names the history
+	Zoo     string     `json:"zoo_message,omitempty"`        // an entry of the message zoo (c06_zoo.go), read with uniform_chunk
 }
 
 func init() {
@@ -43,7 +45,7 @@ func init() {
 		ID:     "C06",
 		Word32: true,
 		Level:  "model_checking",
-		Rule: "Scheduled part (E4 on the instrumented pbcmpl and iohelper packages): every unordered pair of {Marshal, Unmarshal} × 7 frames as a 2-thread program - each thread with its own message, writer and reader -, every schedule with at most 2 (thorough 3) preemptions; each thread must meet the per-frame obligations exactly as when it runs alone. Sequential part: a MESSAGE ZOO (25 messages of 15 generated types given by their hand-written wire bytes: every wire type, negative varints, nested messages, a map entry, and UNKNOWN FIELDS at top level and inside a nested message; each through Marshal / Size and back through Unmarshal into a fresh and into a dirty reused target, proto.Equal + identical re-encoding + identical Size, with a small frame behind it, under whole / 1-byte / 7-byte chunkings); a payload-length sweep (EVERY length 0..1100, every threshold length up to 70000 and every length 2^20-16..2^20+2 - bodies on both sides of the 1 MiB switch to an incremental read - × 4 message kinds: per-frame obligations, and read-back with a small frame behind it); E3 stateless deviation-bounded DFS over a scripted io.Reader: (frames) every frame of the alphabet {generated protobuf message, its versioned wrapper, legacy Marshal/Unmarshal message, its versioned variant} × payload lengths {0,1,2,31,32,33,127,128,129,5000, 2^20+1 (+65535, 65536, 2^20, 2^21+5 thorough)} × versions (every length 0..16, an interior NUL, a leading NUL, trailing spaces): Marshal's count = bytes written = Size = HeaderSize + encoding length, wire bytes = independently built header + encoding, ReadHeader = (version, 32, length) consuming 32 bytes; " +
+		Rule: "Scheduled part (E4 on the instrumented pbcmpl and iohelper packages): every unordered pair of {Marshal, Unmarshal} × 7 frames as a 2-thread program - each thread with its own message, writer and reader -, every schedule with at most 2 (thorough 3) preemptions; each thread must meet the per-frame obligations exactly as when it runs alone. Sequential part: a MESSAGE ZOO (25 messages of 15 generated types given by their hand-written wire bytes: every wire type, negative varints, nested messages, a map entry, and UNKNOWN FIELDS at top level and inside a nested message; each through Marshal / Size and back through Unmarshal into a fresh and into a dirty reused target, proto.Equal + identical re-encoding + identical Size, with a small frame behind it, under whole / 1-byte / 7-byte chunkings); HISTORIES ON ONE MESSAGE OBJECT (7 messages with a nested message - repeated element, map value, oneof member, two levels down -: sized by pbcmpl.Marshal / pbcmpl.Size / proto.Size / nothing, then changed INSIDE so that the nested message's encoded length changes, then marshalled without a sizing call in between: the frame is the hand-written encoding of the message as it is then); POLLING readers (every 2nd / 3rd / 5th call returns (0, nil) between pieces of 1 / 7 / 16 / 4096 bytes: hundreds of empty reads per frame, never two in a row; frames on both sides of the 1 MiB switch); a payload-length sweep (EVERY length 0..1100, every threshold length up to 70000 and every length 2^20-16..2^20+2 - bodies on both sides of the 1 MiB switch to an incremental read - × 4 message kinds: per-frame obligations, and read-back with a small frame behind it); E3 stateless deviation-bounded DFS over a scripted io.Reader: (frames) every frame of the alphabet {generated protobuf message, its versioned wrapper, legacy Marshal/Unmarshal message, its versioned variant} × payload lengths {0,1,2,31,32,33,127,128,129,5000, 2^20+1 (+65535, 65536, 2^20, 2^21+5 thorough)} × versions (every length 0..16, an interior NUL, a leading NUL, trailing spaces): Marshal's count = bytes written = Size = HeaderSize + encoding length, wire bytes = independently built header + encoding, ReadHeader = (version, 32, length) consuming 32 bytes; " +
 			"(histories) every stream of 1..3 frames over a 6-frame sub-alphabet, read back by k+1 Unmarshal calls under every reader chunking with ≤B deviations from 'deliver as much as asked' (deviations: return only j bytes for any j, deliver the last bytes together with io.EOF, one (0,nil) read) plus every uniform chunk size 1..len; every stream also through 11 standard-library reader types and every frame marshalled into 4 standard-library writer types (code may special-case dynamic types); every stream also MARSHALLED frame after frame into one writer (the last message object twice) and read back into reused target messages; three streams in which a frame with a body above 1 MiB is followed by further frames, under whole/uniform chunkings and one forced short read around every frame boundary, body start and power of two; each call must return the next message, its version, n = frame length = bytes actually pulled from the reader, and the extra call (0, cause io.EOF). " +
 			"states = choice-tree nodes (= executions), transitions = reader answers given. Non-trivial: executions with at least one deviation or a multi-frame stream.",
 		Assumptions: []string{
@@ -245,6 +247,8 @@ type c06Reader struct {
 	uniform int
 	cut     int // > 0: the read that would cross this offset stops exactly there
 	reads   int64
+	empty   int // > 0: every empty-th call returns (0, nil), which io.Reader permits (a polling source)
+	calls   int64
 }
 
 func (r *c06Reader) Read(p []byte) (int, error) {
@@ -254,6 +258,10 @@ func (r *c06Reader) Read(p []byte) (int, error) {
 	rem := len(r.data) - r.pos
 	if rem == 0 {
 		return 0, io.EOF
+	}
+	r.calls++
+	if r.empty > 0 && r.calls%int64(r.empty) == 0 {
+		return 0, nil
 	}
 	r.reads++
 	max := len(p)
@@ -309,6 +317,10 @@ func c06Stream(frames []c06Frame, env *mc.Env, uniform int) (got, want string, r
 }
 
 func c06StreamCut(frames []c06Frame, env *mc.Env, uniform, cut int) (got, want string, reads int64) {
+	return c06StreamOpt(frames, env, uniform, cut, 0)
+}
+
+func c06StreamOpt(frames []c06Frame, env *mc.Env, uniform, cut, empty int) (got, want string, reads int64) {
 	defer func() {
 		if e := recover(); e != nil {
 			if s, ok := e.(string); ok && len(s) > 3 && s[:3] == "mc:" {
@@ -321,7 +333,7 @@ func c06StreamCut(frames []c06Frame, env *mc.Env, uniform, cut int) (got, want s
 	for _, f := range frames {
 		data = append(data, c06Wire(f)...)
 	}
-	r := &c06Reader{data: data, env: env, uniform: uniform, cut: cut}
+	r := &c06Reader{data: data, env: env, uniform: uniform, cut: cut, empty: empty}
 	for _, f := range frames {
 		wl := len(c06Wire(f))
 		want += fmt.Sprintf("[n=%d ver=%q err=nil payload=%s pulled=%d]", wl, c06Ver(f), digest(c06Payload(f.Payload)), wl)
@@ -747,6 +759,44 @@ func c06Run(c *mc.Ctx) {
 			c.Add("payload_length_sweep_cases", int64(2*len(kinds)))
 		})
 	}
+	// POLLING readers: every 2nd / 3rd / 5th call returns (0, nil) - which io.Reader permits - in between
+	// pieces of 1, 7, 16 or 4096 bytes: a frame then sees hundreds or thousands of empty reads in total, never
+	// two in a row. Frames of several sizes on both read paths (eager up to 1 MiB, incremental above), each
+	// followed by a small frame.
+	{
+		type job struct {
+			f            c06Frame
+			chunk, empty int
+		}
+		var jobs []job
+		for _, l := range []int{0, 33, 200, 2048, 5000, 70000, 1<<20 + 1} {
+			for _, k := range []c06Frame{{Kind: "pb"}, {Kind: "legacyv", Version: gen.Bytes("3.1")}} {
+				for _, ch := range []int{1, 7, 16, 4096} {
+					for _, em := range []int{2, 3, 5} {
+						if l > 70000 && ch < 16 {
+							continue
+						}
+						f := k
+						f.Payload = l
+						jobs = append(jobs, job{f, ch, em})
+					}
+				}
+			}
+		}
+		c.Expect(int64(len(jobs)))
+		c.Par(len(jobs), func(i int) {
+			j := jobs[i]
+			fs := []c06Frame{j.f, {Kind: "pb", Payload: 3}}
+			g, w, rd := c06StreamOpt(fs, nil, j.chunk, 0, j.empty)
+			if g != w {
+				c.Fail(12<<50|int64(i), "stream", "stream/polling-reader", c06Case{Frames: fs, Uniform: j.chunk, Empty: j.empty}, g, w)
+			}
+			c.Count(1, 1)
+			c.Add("states", 1)
+			c.Add("transitions", rd)
+			c.Add("polling_reader_executions", 1)
+		})
+	}
 	// the message zoo (c06_zoo.go): message CONTENT - fifteen generated types, every wire type, nested
 	// messages, unknown fields - under whole, 1-byte and 7-byte chunkings, fresh and dirty reused targets
 	{
@@ -765,6 +815,20 @@ func c06Run(c *mc.Ctx) {
 			c.Count(1, 1)
 			c.Add("states", 1)
 			c.Add("zoo_cases", 1)
+		})
+	}
+	// histories on one message object: sized (or marshalled), changed inside, marshalled again
+	{
+		muts := c06MutList()
+		c.Expect(int64(len(muts) * len(c06MutSizers)))
+		c.Par(len(muts)*len(c06MutSizers), func(i int) {
+			e, sz := muts[i/len(c06MutSizers)], c06MutSizers[i%len(c06MutSizers)]
+			if g, w := c06MutJudge(e.Name, sz); g != w {
+				c.Fail(14<<50|int64(i), "reused-message", "reused-message", c06Case{Zoo: e.Name, Sizer: sz}, g, w)
+			}
+			c.Count(1, 1)
+			c.Add("states", 1)
+			c.Add("reused_message_histories", 1)
 		})
 	}
 	c06Scheduled(c)
@@ -827,6 +891,8 @@ func c06Judge(kind string, cs c06Case) (got, want string) {
 	switch kind {
 	case "zoo":
 		return c06ZooJudge(cs.Zoo, cs.Uniform)
+	case "reused-message":
+		return c06MutJudge(cs.Zoo, cs.Sizer)
 	case "marshalseq":
 		return c06MarshalSeq(cs.Frames)
 	case "stream/std":
@@ -840,7 +906,7 @@ func c06Judge(kind string, cs c06Case) (got, want string) {
 		if cs.Uniform == 0 && cs.Cut == 0 {
 			env = mc.NewEnv(cs.Choices)
 		}
-		g, w, _ := c06StreamCut(cs.Frames, env, cs.Uniform, cs.Cut)
+		g, w, _ := c06StreamOpt(cs.Frames, env, cs.Uniform, cs.Cut, cs.Empty)
 		return g, w
 	}
 	return "unknown kind " + kind, ""
